@@ -91,12 +91,13 @@ Theorem C04_unknown_index_is_error :
 Proof. exact unknown_index_is_error. Qed.
 Print Assumptions C04_unknown_index_is_error.
 
-(** Listeners are notified by a call iff the tip changed; polls are reads. *)
+(** For every step of a history — a call on the manager, a poll, or a pool submission
+    (accepted or not) — the OnReorg listeners are invoked iff the step changed the tip; polls
+    and pool submissions leave the manager's chain state untouched (so they never notify). *)
 Theorem C04_notify_iff_tip_changed :
-  ∀ U, WF U → ∀ hs o m' out nt,
-    ops_pre U (mops_of hs) → op_pre U o →
-    mstep U (hrun U hs).1 o = (m', out, nt) →
-    (nt = true ↔ tip m' ≠ tip (hrun U hs).1) ∧
-    (∀ s max, (hstep U ((hrun U hs).1, s) (HPoll max)).1 = (hrun U hs).1).
+  ∀ U, WF U → ∀ hs h,
+    ops_pre U (mops_of hs) → (∀ o, h = HOp o → op_pre U o) →
+    (hnotifies U (hrun U hs).1 h = true ↔ tip (hstep U (hrun U hs) h).1 ≠ tip (hrun U hs).1) ∧
+    ((∀ o, h ≠ HOp o) → (hstep U (hrun U hs) h).1 = (hrun U hs).1).
 Proof. exact notify_iff_tip_changed_hist. Qed.
 Print Assumptions C04_notify_iff_tip_changed.
